@@ -1,14 +1,12 @@
-(* C04, a run of the model on which the state predicate of C04 fails: a task is queued while three undrained
-   workers are parked in the same size class queue, and no panic was observed.
+(* C04: a run after which the order on the children holding idle workers is cyclic.
 
-   Cause: [descend_idle] follows [minimal (ichildren_less s)] of the children holding idle workers, i.e. the set
-   of admissible heap roots.  [ichildren_less] (the code's idleSynchronizingWorkersChildrenHeap.Less) is not
-   transitive: an invocation with neither executing nor idle-synchronizing workers of its own (it is in the heap
-   because a descendant has one) ties with every sibling on the utilisation products and is ordered against them by
-   lastOperationCompletion only.  With siblings a, b, z where a is before b by utilisation, b before z and z before a
-   by completion time, every child has a predecessor, [minimal] is empty and [schedule_candidates] finds no worker.
-   The code takes heap element 0, which always exists; so this is a difference between the model and the code (the
-   model's candidate set is empty where the code picks somebody), not a behaviour of the code. *)
+   [ichildren_less] (the code's idleSynchronizingWorkersChildrenHeap.Less) is not transitive: an invocation with neither
+   executing nor idle-synchronizing workers of its own (it is in the heap because a descendant has one) ties with every
+   sibling on the utilisation products and is ordered against them by lastOperationCompletion only.  With siblings
+   a, b, z where a is before b by utilisation, b before z and z before a by completion time, every child has a
+   predecessor and [minimal] is empty.  The code takes heap element 0, which always exists; [descend_idle] therefore
+   falls back to all children when there is no minimal one (before that repair of the model this run ended with a task
+   queued while three workers were parked). *)
 From VF Require Import Sched.Corr Sched.Spec.
 From VF Require Export Sched.ProofsFull8.
 Open Scope Z_scope.
@@ -57,8 +55,8 @@ Lemma c04w_cycle :
   minimal (ichildren_less s) (idle_sync_children s (mkI c04w_K [])) = [].
 Proof. vm_compute. repeat split. Qed.
 
-Lemma c04w_violation :
-  c04_dump (observe (fst (run (init c04w_cfg 1000) c04w_evs))) = "C04:task-queued-while-worker-waits"%string.
+Lemma c04w_served :
+  c04_dump (observe (fst (run (init c04w_cfg 1000) c04w_evs))) = ""%string.
 Proof. vm_compute. reflexivity. Qed.
 
 Lemma c04w_no_phantom : no_phantom_sync c04w_evs.
